@@ -47,6 +47,18 @@ for deletion (and unchanged - same size/mtime/inode, never opened for writing - 
 clause; initial/final config and checkpoints-iff-save_ckpt of the run (only checkpoints written by the run
 itself count in a shared directory).  History class "explicit" spells out crop_hw / part_names / edges in the
 configuration (as the repo's own reuse test does), class "defaults" leaves them to the trainer.
+
+Parts `resume` / `resume-sampled` - RESUME histories of two runs: run 1 trains one epoch with checkpointing on; run 2
+is a new ``ModelTrainer`` whose configuration sets ``trainer_config.resume_ckpt_path`` to run 1's ``last.ckpt`` or
+``best.ckpt`` and asks for one more epoch (``max_epochs`` 1 -> 2, optionally another learning rate), writing into run
+1's folder ("same", what the repository's own resume test does) or into a fresh one.  Tracking on/off in either run
+(with run 1's run id handed on as ``prv_runid`` or not), checkpointing on/off in run 2, structured/plain config, the
+three key forms, same/different keys.  Every write boundary of both runs is a crash snapshot over both folders (both
+keys searched).  Judged for run 2 exactly as for any run: completes; ``initial_config.yaml`` (when the constructor
+returns and at the end) equals the configuration supplied to THIS run; ``training_config.yaml`` equals the trainer's
+final config; checkpointing on => the folder holds a checkpoint and run 2 wrote one; embedded configs carry a blank
+key.  Whether run 2 really resumed (its checkpoint opened for reading, ``Trainer.ckpt_path`` set to it, global step
+2) decides non-triviality and is recorded as class ``resume|really-resumed=*``.
 """
 
 import hashlib
@@ -81,7 +93,13 @@ RULE = (
     "chunk-reuse parts: case = history (run 1 creates+keeps np chunks; run 2 use_existing_chunks=True with delete in "
     "{T,F}; optional run 3 re-uses again and deletes) x model type x np_chunks_path {None, separate} x form x "
     "use_wandb x save_ckpt x {explicit, defaults} drawn jointly, two keys (same or different); thorough enumerates all "
-    "model x npp x delete x form x class histories with a kill at every boundary inside run 2's Trainer.fit"
+    "model x npp x delete x form x class histories with a kill at every boundary inside run 2's Trainer.fit; "
+    "resume parts: case = history (run 1: one epoch, checkpointing on; run 2: a new ModelTrainer with resume_ckpt_path = "
+    "run 1's {last, best}.ckpt, max_epochs 2, {same lr, other lr}) x model type x {in-memory, np_chunks} x run 2's folder "
+    "{same as run 1, fresh} x form x tracking (run 1, run 2) x prv_runid handed on or not x run 2 checkpointing x key form, "
+    "two keys (same or different), 0-1 kill points inside run 2; non-trivial = both keys non-empty and run 2 verifiably "
+    "resumed (checkpoint opened for reading, Trainer.ckpt_path set to it, global step 2 after run 2); thorough "
+    "enumerates model x fw x folder x form x run-2 checkpointing (64 histories, other axes cycled) with two kills each"
 )
 ASSUMPTIONS = [
     "wandb runs in offline mode only (no network in the sandbox): wandb_mode='offline', so wandb.login(key) "
@@ -109,6 +127,15 @@ ASSUMPTIONS = [
     "crop_hw of its final config are recorded as class labels (reuse:final-config-without-*) and not judged; in a "
     "directory shared by several runs (np_chunks_path=None) run 1 writes no checkpoint and only checkpoints written "
     "by the judged run itself count for the checkpoint clause",
+    "resume histories: torch in this image defaults torch.load(weights_only=True), which cannot un-pickle the DictConfig "
+    "stored in sleap-nn checkpoints, so Trainer.fit(ckpt_path=...) cannot resume at all here; the check sets "
+    "TORCH_FORCE_NO_WEIGHTS_ONLY_LOAD=1 (image shim, like the kornia one) for the duration of a resumed run only; with it "
+    "run 2 loads the checkpoint and trains its extra epoch on the unchanged tree (class resume|really-resumed=1)",
+    "resume histories: run 2 always asks for one more epoch than run 1 trained (max_epochs 1 -> 2), so that resuming "
+    "has work to do; checkpoint clause of a resumed run = 'checkpointing on => the folder holds a checkpoint and the run "
+    "wrote at least one' (in run 1's folder Lightning restores the best score, so whether best.ckpt is rewritten depends "
+    "on the losses: recorded as class resume|run2-wrote=*, not judged); np_chunks resume histories delete their chunks "
+    "in both runs (np_chunks_path=None)",
     "ModelTrainer is driven directly (as sleap_nn.train.run_training does in its first two lines); the "
     "post-training predict/evaluate part of run_training depends on the sleap-io version shim and belongs to C02",
 ]
@@ -181,6 +208,8 @@ class _Monitor:
         self.labels = []
         self.cache = {}
         self.fit_span = None  # [first boundary index inside Trainer.fit, first index after it]
+        self.watch_read = None  # absolute path whose opens-for-reading are counted (the checkpoint a run resumes from)
+        self.read_opens = 0
         self.hits = {}  # rel path -> {"first": idx, "last": idx, "how": str, "n": count}
         self.scans = 0
 
@@ -196,9 +225,16 @@ class _Monitor:
             if event == "open":
                 mode, flags = args[1], args[2]
                 if isinstance(mode, str):
-                    if not any(c in mode for c in "wax+"):
-                        return
-                elif not (isinstance(flags, int) and flags & _WFLAGS):
+                    writing = any(c in mode for c in "wax+")
+                else:
+                    writing = bool(isinstance(flags, int) and flags & _WFLAGS)
+                if not writing:
+                    if self.watch_read is not None and isinstance(args[0], (str, bytes, os.PathLike)):
+                        p0 = os.fspath(args[0])
+                        if isinstance(p0, bytes):
+                            p0 = p0.decode("utf-8", "replace")
+                        if os.path.abspath(p0) == self.watch_read:
+                            self.read_opens += 1  # evidence that a resumed run really opened its checkpoint
                     return
             hit = None
             for i in idxs:
@@ -444,7 +480,15 @@ def build_config(case, out, chunks, indir):
         },
         head_configs=_heads(case["model"], _labels_facts(labels) if explicit else None),
     )
+    extra = {}
+    if case.get("lr") is not None:
+        extra["learning_rate"] = float(case["lr"])
+    if case.get("resume_ckpt") is not None:  # resume histories: run 2 continues from a checkpoint of run 1
+        extra["resume_ckpt_path"] = case["resume_ckpt"]
+    if case.get("prv_runid") is not None:
+        extra["wandb_resume_prv_runid"] = case["prv_runid"]
     tc = get_trainer_config(
+        **extra,
         batch_size=1,
         shuffle_train=False,
         num_workers=0,
@@ -454,7 +498,7 @@ def build_config(case, out, chunks, indir):
         trainer_accelerator="cpu",
         enable_progress_bar=False,
         steps_per_epoch=1,
-        max_epochs=1,
+        max_epochs=int(case.get("max_epochs", 1)),
         seed=int(case["seed"]),
         use_wandb=case["use_wandb"],
         save_ckpt=case["save_ckpt"],
@@ -595,7 +639,7 @@ class _Quiet:
         return False
 
 
-_ENV_KEYS = ["WANDB_DIR", "WANDB_CACHE_DIR", "WANDB_CONFIG_DIR", "WANDB_DATA_DIR", "WANDB_MODE", "WANDB_SILENT", "TMPDIR"]
+_ENV_KEYS = ["WANDB_DIR", "WANDB_CACHE_DIR", "WANDB_CONFIG_DIR", "WANDB_DATA_DIR", "WANDB_MODE", "WANDB_SILENT", "TMPDIR", "TORCH_FORCE_NO_WEIGHTS_ONLY_LOAD"]
 _SIGS = [signal.SIGINT, signal.SIGTERM] + ([signal.SIGUSR1] if hasattr(signal, "SIGUSR1") else [])
 
 
@@ -662,6 +706,11 @@ def run_once(case, kill=None, layout=None, keys=None):
             WANDB_DIR=out, WANDB_CACHE_DIR=home, WANDB_CONFIG_DIR=home, WANDB_DATA_DIR=home,
             WANDB_MODE="offline", WANDB_SILENT="true", TMPDIR=tmpd,
         )
+        if case.get("resume_ckpt") is not None:
+            # image shim (like the kornia one): torch >= 2.6 defaults torch.load(weights_only=True), which cannot
+            # un-pickle the DictConfig sleap-nn stores in its checkpoints, so Trainer.fit(ckpt_path=...) could not
+            # resume at all in this image; set for the duration of a resumed run only
+            os.environ["TORCH_FORCE_NO_WEIGHTS_ONLY_LOAD"] = "1"
         tempfile.tempdir = tmpd
         os.chdir(cwd)
 
@@ -691,6 +740,8 @@ def run_once(case, kill=None, layout=None, keys=None):
         mon.reset(roots, keys, kill, d)
         mon.main_ident = threading.get_ident()
         mon.hook_error = None
+        if case.get("resume_ckpt") is not None:
+            mon.watch_read = os.path.abspath(case["resume_ckpt"])
         t0 = time.time()
         with _Quiet():
             OmegaConf.save = staticmethod(osave)
@@ -708,6 +759,11 @@ def run_once(case, kill=None, layout=None, keys=None):
                     os.environ[KEY_ENV] = case["key"]  # the real key exists only in the environment of the run
                 tr = ModelTrainer(cfg)
                 rep["constructed"] = True
+                # the initial configuration file as it is when the constructor returns (reading raises no boundary)
+                p_init = os.path.join(out, "initial_config.yaml")
+                rep["initial_after_init"] = (
+                    _norm(OmegaConf.to_container(OmegaConf.load(p_init), resolve=False)) if os.path.exists(p_init) else None
+                )
                 tr.train()
                 rep["outcome"] = "completed"
             except BaseException as e:  # noqa: BLE001
@@ -756,6 +812,10 @@ def run_once(case, kill=None, layout=None, keys=None):
         rep["killed_at"] = mon.killed_at
         rep["fit_span"] = list(mon.fit_span) if mon.fit_span else None
         rep["scans"] = mon.scans
+        rep["read_opens"] = mon.read_opens
+        lt = getattr(tr, "trainer", None) if tr is not None else None
+        rep["global_step"] = int(lt.global_step) if lt is not None else None
+        rep["fit_ckpt_path"] = (str(lt.ckpt_path) if getattr(lt, "ckpt_path", None) else None) if lt is not None else None
 
         # ---- artifacts
         files = []
@@ -783,6 +843,8 @@ def run_once(case, kill=None, layout=None, keys=None):
                     continue
                 conf = ck.get("config") if isinstance(ck, dict) else None
                 info = {"has_config": conf is not None, "deep_key": any(_walk_has_key(ck, k) for k in keys)}
+                if isinstance(ck, dict):
+                    info["epoch"], info["global_step"] = ck.get("epoch"), ck.get("global_step")
                 if conf is not None:
                     c = _norm(OmegaConf.to_container(conf, resolve=False)) if not isinstance(conf, dict) else _norm(conf)
                     info["api_key"] = _get(c, KEYPATH, "<absent>")
@@ -904,8 +966,12 @@ def judge_key(res, case, rep):
         )
 
 
-def judge_artifacts(res, case, rep, reuse=False):
+def judge_artifacts(res, case, rep, reuse=False, resumed=False):
     """Clauses (2) and (3) for the un-killed run.
+
+    resumed=True: the run continued from a checkpoint of an earlier run (`resume_ckpt_path`), possibly in the earlier
+    run's folder: the checkpoint clause is "checkpointing on => the folder holds a checkpoint and this run wrote one"
+    (which of best/last a resumed run rewrites depends on the restored best score - recorded, not judged).
 
     reuse=True: the run re-used existing chunks (`use_existing_chunks`): the labels file is never opened, the
     skeleton / max_height,max_width / crop size are read from the chunk directory's config.yaml and are NOT
@@ -950,6 +1016,12 @@ def judge_artifacts(res, case, rep, reuse=False):
     # (3a) initial config == supplied
     n += 1
     cmp_conf("initial_config.yaml", rep["supplied"], rep["initial_config.yaml"], "supplied-config")
+    early = rep.get("initial_after_init")
+    if early is not None and early != rep["initial_config.yaml"]:
+        # the file as the constructor left it is not the one found at the end: it has to equal the supplied
+        # configuration at that point as well (identical contents were just compared above)
+        n += 1
+        cmp_conf("initial_config.yaml@constructed", rep["supplied"], early, "supplied-config")
     # (3b) final config == configuration actually used
     final = rep["training_config.yaml"]
     if rep["tr_config"] is not None:
@@ -995,7 +1067,20 @@ def judge_artifacts(res, case, rep, reuse=False):
     # (3d) checkpoints iff save_ckpt
     n += 1
     names = {os.path.basename(r) for r in rep["own_ckpts"]}
-    if ck:
+    if resumed:
+        if ck and run == "completed":
+            present = sorted(os.path.basename(r) for r in rep["ckpts"])
+            if not present:
+                res.fail("artifacts:ckpt-missing:any:save_ckpt=True", f"no checkpoint file in the output folder after a completed resumed run; config={lab}")
+            elif not names:
+                res.fail(
+                    "artifacts:ckpt-not-written:save_ckpt=True",
+                    f"the resumed run trained with checkpointing on but wrote no checkpoint (folder holds {present} of the earlier run); config={lab}",
+                )
+            res.cls("resume|run2-wrote=" + ("+".join(sorted(names)) or "nothing"))
+        elif not ck and names:
+            res.fail("artifacts:ckpt-unexpected:save_ckpt=False", f"checkpoints {sorted(names)} written although save_ckpt=False; config={lab}")
+    elif ck:
         for want in ("best.ckpt", "last.ckpt"):
             if want not in names and run == "completed":
                 res.fail(f"artifacts:ckpt-missing:{want}:save_ckpt=True", f"no {want} after a completed run (found {sorted(names)}); config={lab}")
@@ -1230,6 +1315,129 @@ def evaluate_history(case):
 
 
 # ----------------------------------------------------------------------------------
+# resume histories: run 1 trains with checkpointing on, run 2 (a new ModelTrainer) continues from run 1's checkpoint
+
+
+RESUME_LR = 5e-4  # run 2's learning rate in histories of change class "epochs+lr" (run 1: the builder's default 1e-3)
+
+
+def _rlabel(case):
+    return (
+        f"{case['model']}|{case['fw']}|folder2={case['folder2']}|from={case['from']}|change={case['change']}"
+        f"|wandb={int(case['uw1'])}{int(case['uw2'])}|prv={int(case['prv'])}|ckpt2={case['ck2']}|{case['form']}"
+        f"|key={case.get('key_form', 'literal')}|keys={'same' if case['key'] == case['key2'] else 'different'}"
+    )
+
+
+def _resume_runs(case):
+    """Run cases of a resume history; run 2's `resume_ckpt` / `prv_runid` are filled in once run 1 has finished."""
+    np_chunks = case["fw"] == "np_chunks"
+    base = {
+        "model": case["model"], "fw": "torch_dataset_np_chunks" if np_chunks else "torch_dataset", "delete": True, "npp": None,
+        "form": case["form"], "labels": case["labels"], "seed": case["seed"], "key_form": case.get("key_form", "literal"),
+    }
+    r1 = dict(base, use_wandb=case["uw1"], save_ckpt=True, key=case["key"], out="out", max_epochs=1)
+    r2 = dict(
+        base, use_wandb=case["uw2"], save_ckpt=case["ck2"], key=case["key2"], out="out" if case["folder2"] == "same" else "out2",
+        max_epochs=2, lr=RESUME_LR if case["change"] == "epochs+lr" else None,
+    )
+    return [r1, r2]
+
+
+def _run_resume(case, kill=None):
+    """Run 1, then run 2 resuming from run 1's checkpoint, in ONE directory tree (kill applies to run 2)."""
+    r1, r2 = _resume_runs(case)
+    d = env.scratch_dir("c19r")
+    try:
+        outs = sorted({os.path.join(d, r["out"]) for r in (r1, r2)})
+        keys = sorted({case["key"], case["key2"]})
+        reps = []
+        for i, rc in enumerate((r1, r2)):
+            out = os.path.join(d, rc["out"])
+            if i == 1:
+                rc["resume_ckpt"] = os.path.join(d, r1["out"], case["from"] + ".ckpt")
+                if case["prv"] and case["uw1"] and case["uw2"]:
+                    # continue run 1's tracking run: its id is documented to be in run 1's final configuration
+                    rc["prv_runid"] = _get(reps[0]["training_config.yaml"] or {}, "trainer_config.wandb.run_id")
+            layout = {"d": d, "out": out, "chunks": None, "roots": outs, "chunk_out": out}
+            rep = run_once(rc, kill=kill if i == 1 else None, layout=layout, keys=keys)
+            rep["kill"] = list(kill) if (kill and i == 1) else None
+            rep["case"] = rc
+            reps.append(rep)
+            if rep["outcome"] != "completed" or not os.path.exists(os.path.join(d, r1["out"], case["from"] + ".ckpt")):
+                break
+        return reps
+    finally:
+        shutil.rmtree(d, ignore_errors=True)
+
+
+def evaluate_resume(case):
+    res = Result()
+    folder = f"{case['folder2']}-folder"
+    res.cls(
+        f"resume|{folder}|{case['model']}|{case['form']}",
+        f"resume|{folder}|wandb={int(case['uw1'])}{int(case['uw2'])}|ckpt2={int(case['ck2'])}",
+        f"resume|{folder}|keys={'same' if case['key'] == case['key2'] else 'different'}|key={case.get('key_form', 'literal')}",
+        f"resume|from={case['from']}|change={case['change']}|fw={case['fw']}",
+        f"resume|prv_runid={int(bool(case['prv'] and case['uw1'] and case['uw2']))}",
+    )
+    n_evals = 0
+    reps = _run_resume(case)
+    for i, rep in enumerate(reps):
+        rc = rep["case"]
+        tmp = Result()
+        n_evals += rep["scans"] + 1
+        judge_key(tmp, rc, rep)
+        n_evals += judge_artifacts(tmp, rc, rep, resumed=(i == 1))
+        for b, m in tmp.failures:
+            if ":raise:" in b:
+                b = b.split(":cfg=")[0]
+            res.fail(f"resume:run{i + 1}:{folder}:{b}" if i == 1 else f"resume:run1:{b}", f"{m} ; history={_rlabel(case)}")
+        for c in tmp.classes:
+            res.cls(c)
+        res.cls(f"resume|run{i + 1}={rep['outcome']}", f"resume|run{i + 1}-boundaries={rep['n_boundaries']}")
+        TIMING.append((f"resume-run{i + 1}", round(rep["seconds"], 2), rep["n_boundaries"]))
+    if len(reps) == 1 and reps[0]["outcome"] == "completed":
+        res.cls(f"resume|run1-left-no-{case['from']}.ckpt")  # run 1's own artifact clause has reported it
+    # did run 2 really resume?  (harness fact, not an oracle clause: decides whether the case counts as non-trivial)
+    resumed = False
+    if len(reps) == 2 and reps[1]["outcome"] == "completed":
+        r2 = reps[1]
+        want = os.path.abspath(r2["case"]["resume_ckpt"])
+        resumed = (
+            r2["read_opens"] >= 1  # the checkpoint file was opened for reading during run 2
+            and r2["fit_ckpt_path"] is not None
+            and os.path.abspath(r2["fit_ckpt_path"]) == want  # ... by Trainer.fit as the state to restore
+            and r2["global_step"] == 2  # run 1's step + the one step of run 2's extra epoch
+        )
+        res.cls(f"resume|really-resumed={int(resumed)}")
+        own_last = [v for k, v in r2["ckpts"].items() if k.endswith("/last.ckpt") and k in r2["own_ckpts"]]
+        for info in own_last:
+            res.cls(f"resume|run2-last.ckpt-epoch={info.get('epoch')}-step={info.get('global_step')}")
+    res.nontrivial = bool(case["key"]) and bool(case["key2"]) and resumed
+    # ---- die inside the resumed run, unwind, scan both runs' directories
+    kills = case.get("kills") or []
+    if len(reps) == 2 and reps[1]["outcome"] == "completed":
+        r2 = reps[1]
+        span = r2["fit_span"]
+        for kl in kills:
+            k_raw, flavour, region = kl[0], kl[1], (kl[2] if len(kl) > 2 else "any")
+            if region == "fit" and span and span[1] is not None and span[1] > span[0]:
+                k = span[0] + int(k_raw) % (span[1] - span[0])
+            else:
+                k = int(k_raw) % r2["n_boundaries"]
+            rb = _run_resume(case, kill=(k, flavour))[-1]
+            n_evals += rb["scans"] + 1
+            res.cls("resume|kill:not-reached" if rb["killed_at"] is None else f"resume|kill:{flavour}")
+            tmp = Result()
+            judge_key(tmp, rb["case"], rb)
+            for b, m in tmp.failures:
+                res.fail(f"resume:run2:{folder}:{b}", f"{m} ; history={_rlabel(case)}")
+    res.n_evals = max(1, n_evals)
+    return res
+
+
+# ----------------------------------------------------------------------------------
 # generators
 
 
@@ -1401,6 +1609,83 @@ def history_strategy():
     return case()
 
 
+# resume histories: (model, fw, folder2, form, (uw1, uw2), ck2) is ONE joint choice
+RGRID = [
+    (m, fw, f2, form, uws, ck2)
+    for m in MODELS
+    for fw in ("in_memory", "np_chunks")
+    for f2 in ("same", "fresh")
+    for form in ("structured", "plain")
+    for uws in ((False, False), (False, True), (True, False), (True, True))
+    for ck2 in (True, False)
+]
+RVARIANTS = [(frm, ch, prv) for frm in ("last", "best") for ch in ("epochs", "epochs+lr") for prv in (False, True)]
+
+
+def _rcase(cfg, variant, key, key2, seed, kills, key_form="literal"):
+    m, fw, f2, form, (uw1, uw2), ck2 = cfg
+    frm, change, prv = variant
+    if key_form == "digits":
+        key, key2 = (k if k.isdigit() else ("7" + _digits(k)[1:] if k.startswith("c1") else "8" + _digits(k)[1:]) for k in (key, key2))
+    return {
+        "kind": "resume", "key_form": key_form,
+        "model": m, "fw": fw, "folder2": f2, "form": form, "uw1": uw1, "uw2": uw2, "ck2": ck2,
+        "from": frm, "change": change, "prv": bool(prv),
+        "labels": "one" if m == "single_instance" else "asset",
+        "key": key, "key2": key2, "seed": seed, "kills": kills,
+    }
+
+
+def resume_cases(tier):
+    if tier == "quick":
+        # four fixed histories: every model type once; run 2 in run 1's folder three times (as the repo's own resume
+        # test does) and in a fresh folder once; both config forms twice; same / different keys; all three key forms;
+        # tracking on in run 2 only / in both runs with run 1's run id handed on (prv_runid) / off
+        picks = [
+            (("centered_instance", "in_memory", "same", "plain", (False, False), True), ("last", "epochs+lr", False), False, "literal"),
+            (("centroid", "in_memory", "same", "structured", (False, True), False), ("best", "epochs", False), True, "env"),
+            (("single_instance", "np_chunks", "fresh", "plain", (False, False), True), ("last", "epochs", False), True, "digits"),
+            (("bottomup", "in_memory", "same", "structured", (True, True), True), ("last", "epochs+lr", True), True, "literal"),
+        ]
+        for i, (cfg, var, diffkeys, kf) in enumerate(picks):
+            k1 = _det_key(30_000 + i)
+            yield _rcase(cfg, var, k1, _det_key(40_000 + i) if diffkeys else k1, 3000 + i, [], kf)
+    else:
+        # all (model x fw x folder2 x form x ck2) histories; tracking, variant, key form, same/different keys cycle
+        i = 0
+        for m in MODELS:
+            for fw in ("in_memory", "np_chunks"):
+                for f2 in ("same", "fresh"):
+                    for form in ("structured", "plain"):
+                        for ck2 in (True, False):
+                            uws = [(False, False), (True, True), (False, True), (True, False)][i % 4]
+                            var = RVARIANTS[(i // 2) % len(RVARIANTS)]
+                            k1 = _det_key(30_000 + i)
+                            kills = [[i, "base", "fit"], [i // 3, "kbd", "any"]]
+                            yield _rcase((m, fw, f2, form, uws, ck2), var, k1, _det_key(40_000 + i) if i % 2 else k1, 3000 + i, kills, KEY_FORMS[(i // 4) % 3])
+                            i += 1
+
+
+def resume_strategy():
+    from hypothesis import strategies as st
+
+    @st.composite
+    def case(draw):
+        cfg, key_form = draw(st.sampled_from([(g, kf) for g in RGRID for kf in KEY_FORMS]))  # ONE joint choice
+        var = draw(st.sampled_from(RVARIANTS))
+        k1 = "c1" + draw(st.text(alphabet="0123456789abcdef", min_size=38, max_size=38))
+        same = draw(st.booleans())
+        k2 = k1 if same else "c2" + draw(st.text(alphabet="0123456789abcdef", min_size=38, max_size=38))
+        seed = draw(st.integers(0, 2**16))
+        kinds = [("base", "fit"), ("kbd", "fit"), ("base", "any"), ("kbd", "any")]
+        kills = draw(
+            st.lists(st.tuples(st.integers(0, 999), st.sampled_from(kinds)).map(lambda t: [t[0], t[1][0], t[1][1]]), min_size=0, max_size=1)
+        )
+        return _rcase(cfg, var, k1, k2, seed, kills, key_form)
+
+    return case()
+
+
 def _setup():
     _install_hook()
 
@@ -1443,6 +1728,26 @@ def parts(tier):
             min_nontrivial={"quick": 1, "thorough": 60},
             setup=_setup,
         ),
+        Part(
+            name="resume",
+            evaluate=evaluate_resume,
+            enumerate=resume_cases,
+            shards={"quick": 1, "thorough": 16},
+            exhaustive={"quick": False, "thorough": False},
+            min_nontrivial={"quick": 2, "thorough": 40},
+            setup=_setup,
+        ),
+        Part(
+            name="resume-sampled",
+            evaluate=evaluate_resume,
+            strategy=resume_strategy,
+            # histories without kills take ~1-3 s: 4 shards of 100; with 16 shards a smoke run at --scale 0.02 would give
+            # every shard ONE example - Hypothesis' identical simplest one - and trip the runner's non-trivial floor
+            budget={"quick": 2, "thorough": 400},
+            shards={"quick": 1, "thorough": 4},
+            min_nontrivial={"quick": 1, "thorough": 100},
+            setup=_setup,
+        ),
     ]
 
 
@@ -1451,7 +1756,9 @@ def extra_coverage():
         "exhaustive_domain": "thorough: all 192 configurations (4 model types x 6 fw/chunk variants x use_wandb x "
         "save_ckpt x structured/plain) x every write boundary x {SimulatedKill, KeyboardInterrupt}; chunk-reuse: all "
         "128 histories (4 model types x np_chunks_path {None, sep} x delete {T,F} x structured/plain x "
-        "{explicit, defaults}) x every boundary inside run 2's Trainer.fit x 2 kill flavours",
+        "{explicit, defaults}) x every boundary inside run 2's Trainer.fit x 2 kill flavours; resume: 64 histories "
+        "(4 model types x {in-memory, np_chunks} x run-2 folder {same, fresh} x structured/plain x run-2 checkpointing) "
+        "with two kill points inside run 2 each (not exhaustive over tracking / key form / variant: cycled)",
     }
     if TIMING:
         secs = [t[1] for t in TIMING]
